@@ -38,7 +38,7 @@ CLAIMED.update({
 
 CLAIMED.update({
  "C07": ("stack-sim", "deterministic simulation: seeded configurations (layer trees with global and per-layer filters assembled at run time) x seeded emission histories through the real macros (interest caches, MAX_LEVEL, per-thread FILTERING state in play), one or two stacks on one or two threads; stack delivery reference model (A5) as oracle",
-         "Seeded exploration of stacks built from plain layers, global filter layers and per-layer-filtered subtrees (nested, Vec/Option/Box/and_then) with level/Targets/EnvFilter/static-closure/context-closure/and-or-not filters, and histories of spans (create/enter/exit/record/drop), events, enabled! probes and emissions aborted by a panicking field expression; each leaf must receive exactly what its own path filters and the global filters accept, lifecycle notifications go to exactly the recipients of the span, and lookup_current/event_scope inside callbacks show exactly the spans the leaf received. Known-finding triggers (F3, F13, F14) run in separate finding-probe configurations. Sampling, not proof.",
+         "Seeded exploration of stacks built from plain layers, global filter layers and per-layer-filtered subtrees (nested, Vec/Option/Box/and_then) with level/Targets/EnvFilter/static-closure/context-closure/and-or-not filters, and histories of spans (create/enter/exit/record/drop), events, enabled! probes and emissions aborted by a panicking field expression; each leaf must receive exactly what its own path filters and the global filters accept, lifecycle notifications go to exactly the recipients of the span, and lookup_current/event_scope inside callbacks show exactly the spans the leaf received. A sixth of the must-hold runs add a recording leaf that emits an event of its own from inside its register_callsite (re-entrancy into the per-thread interest accumulation), as the outermost group under its own per-layer filter. Known-finding triggers (F3, F13, F14, F34: re-entrant leaves anywhere in the tree) run in separate finding-probe configurations. Sampling, not proof.",
          "Trusts: the filter evaluator and delivery model in sim/tsim/src/stack.rs and stack_sim.rs (restricted grammar: target tables by longest string prefix, static closures by site mask, context closures on the visible current span); histories are total orders.", "DESIGN.md 5 C07"),
  "C09": ("wrap-sim", "deterministic simulation: seeded configurations (1-5 recording layers, nested pass-through wrappers, collector wrappers, two base collectors, optional veto) x seeded span/event histories, optionally raced (seeded schedules) by a thread holding a reload wrapper's write lock inside Handle::modify; absolute exactly-once/ordering oracle per operation window",
          "Seeded exploration of wrapper nestings {Box, Some, one-element Vec, reload, and_then with Identity/None/empty-Vec neighbours}, transparent extra groups (None, empty Vec, Identity), the collector wrapped in Box/Arc/Box<Box>, over the Registry or an id-changing collector; per operation every layer must log each lifecycle notification (new span, record, follows-from, event, enter, exit, close, id change) exactly once, inner layers first, with identical arguments; dispatcher registration exactly once per layer; query callbacks (register_callsite, enabled, event_enabled) the same number of times for every layer unless a layer vetoes, in which case nobody is notified. Sampling, not proof.",
@@ -47,7 +47,7 @@ CLAIMED.update({
 
 CLAIMED.update({
  "C11": ("directive-sim", "deterministic simulation: seeded directive sets x seeded enter/exit/record histories on 1-2 threads (total orders; a quarter of the span-scoped runs as seeded schedules of two threads racing on one EnvFilter), run under four replica collectors in one process (Targets, EnvFilter, EnvFilter re-parsed from its Display, EnvFilter as per-layer filter); differential oracles plus a reference model for the documented directive subset",
-         "Seeded exploration of directive strings from the documented grammar (shared prefixes, duplicates/conflicts in any order, bare level/target, names in any case or digits, span names, int/bool field value matchers) with well-nested enter/exit histories over named spans with typed fields (values recorded at creation or later, spans shared between threads); replicas must deliver identically (Display round trip, global vs per-layer, Targets on static strings), would_enable must equal delivery, and deliveries must equal the model (longest prefix wins, last duplicate wins, level raised exactly while a matching span is entered on the thread and for the span itself). Sampling, not proof.",
+         "Seeded exploration of directive strings from the documented grammar (shared prefixes, duplicates/conflicts in any order, bare level/target, names in any case or digits, span names, int/bool field value matchers) with well-nested enter/exit histories over named spans with typed fields (values recorded at creation or later, spans shared between threads); replicas must deliver identically (Display round trip, global vs per-layer, Targets on static strings), would_enable must equal delivery, and deliveries must equal the model (longest prefix wins, last duplicate wins, level raised exactly while a matching span is entered on the thread and for the span itself). A third of the race runs install the EnvFilter as the process-wide default and use field values whose Debug impl creates a span of its own while the filter matches them (re-entrancy under the filter's table locks: no deadlock, same deliveries). Sampling, not proof.",
          "Trusts: the directive model in sim/tsim/src/directive_sim.rs for the generated subset; forms outside it are checked only differentially; spans cared about by a directive's callsite but not matching its values are not judged.", "DESIGN.md 5 C11"),
  "C12": ("reload-sim", "deterministic simulation: seeded histories and seeded schedules (cooperative RwLock shim inside reload, callsite-registry lock hook H1, every interest/MAX_LEVEL atomic a preemption point) of reload/modify (from one thread or overlapping from several) vs emissions on 2-3 threads; interval-rule (register linearizability) oracle against the filter evaluator",
          "Seeded exploration of <=6 reloads between None/level/Targets/EnvFilter/closure values of a reloadable global layer (inner or outer) or per-layer filter, interleaved with <=30 emissions from a callsite pool on the reloading and other threads; an emission is judged by a value whose reload began before the emission ended and was not certainly superseded before the emission began (exactly value k when it lies between reload k's return and reload k+1's start); MAX_LEVEL after return is at least the new value's need (exact for level values); a handle whose collector is gone returns a 'dropped' error. Sampling, not proof.",
@@ -74,7 +74,7 @@ CLAIMED.update({
 
 CLAIMED.update({
  "C14": ("json-sim", "deterministic simulation: seeded JSON-formatter configurations x seeded histories of span creation, later record calls, enter/exit and events with hostile strings and numeric extremes on 1-3 threads (a quarter of the runs under seeded schedules with a recording thread racing an emitting thread), aborted formatting as a fault; an independent strict RFC 8259 parser plus a field-value model as oracle",
-         "Seeded exploration of flatten_event/current_span/span_list/display options with hostile characters in messages, field names, string values, targets and span names, all numeric types at their extremes, NaN/inf, bools, errors, Debug/Display values, and span fields recorded in 0..n later steps; every record must be exactly one line, parse with an independent strict parser (unique keys at every level), carry every event field and span field with the value recorded under the documented type mapping (128-bit integers: digits as number or string), and list the current span's ancestor chain root to leaf. Sampling, not proof.",
+         "Seeded exploration of flatten_event/current_span/span_list/display options with hostile characters in messages, field names, string values, targets and span names, all numeric types at their extremes, NaN/inf, bools, errors, Debug/Display values, and span fields recorded in 0..n later steps; a fifth of the runs create spans first and swap the JSON layer in through a reload handle afterwards (spans the layer never saw created: first-ever record, possibly two at once, and events inside them); a record call whose value does not panic must not panic; every record must be exactly one line, parse with an independent strict parser (unique keys at every level), carry every event field and span field with the value recorded under the documented type mapping (128-bit integers: digits as number or string), and list the current span's ancestor chain root to leaf. Sampling, not proof.",
          "Trusts: the hand-written parser and the expectation tables in sim/tsim/src/json_sim.rs; under seeded schedules later-recorded fields are judged by an allowed-outcome set (absent or any value recorded on that span).", "DESIGN.md 5 C14"),
 })
 
